@@ -100,9 +100,11 @@ def schema_mutant(rng, w):
         p = rng.choice(pref if pref and rng.random() < 0.8 else keyed)
         d = del_at(d, p)
     elif kind == "bad-option":
-        cands = [p for p, n in nodes if p and p[-1] in ("model", "operation", "depth method", "interpolation", "orientation operation")]
+        # not "interpolation": the schema has no enum for it, the library checks the string when a feature reads its coordinates (class `other`), and the model does not
+        # read the key at all - a mutant there would be a disagreement of the model, not of the library (class audit, DESIGN section 13)
+        cands = [p for p, n in nodes if p and p[-1] in ("model", "operation", "depth method", "orientation operation")]
         if not cands:
-            d["interpolation"] = "cubic spline of order 7"
+            d["version"] = "no such version"
         else:
             p = rng.choice(cands)
             d = set_at(d, p, rng.choice(["no such option", "Replace", "uniform ", ""]))
